@@ -43,7 +43,7 @@ def main():
                 t = fn(*a, **k)
             finally:
                 signal.setitimer(signal.ITIMER_REAL, 0)
-            return ["tree", ast.dump(t, include_attributes=True)] if t is not None else ["none"]
+            return ["tree", _dump(t)] if t is not None else ["none"]
         except Timeout:
             return ["timeout"]
         except SyntaxError as e:
@@ -52,6 +52,15 @@ def main():
             return ["token", str(e)[:200]]
         except BaseException as e:
             return ["other", type(e).__name__, str(e)[:200]]
+
+    def _dump(node):
+        # deterministic also for malformed trees that hold raw tuples (their repr would contain object addresses)
+        if isinstance(node, ast.AST):
+            parts = [f"{f}={_dump(getattr(node, f, None))}" for f in node._fields] + [f"{a}={getattr(node, a, None)!r}" for a in node._attributes]
+            return f"{type(node).__name__}({', '.join(parts)})"
+        if isinstance(node, (list, tuple)):
+            return "[" + ", ".join(_dump(x) for x in node) + "]"
+        return repr(node)
 
     out = {"env": {"preferred": locale.getpreferredencoding(False), "utf8_mode": sys.flags.utf8_mode, "fsenc": sys.getfilesystemencoding()}, "cases": []}
     names = sorted(n for n in os.listdir(casedir) if n.endswith(".xsh"))
